@@ -63,7 +63,7 @@ ASSUMPTIONS = [
 CASE_TIMEOUT = 300
 CHUNK = 5
 EXHAUSTIVE = {"quick": False, "thorough": False}
-NCASES = {"quick": 420, "thorough": 6000}
+NCASES = {"quick": 420, "thorough": 5000}
 MAXHIST = {"quick": 6, "thorough": 20}
 MAXFULL = {"quick": 8, "thorough": 5}       # events per case judged with the mp/quadrature oracles
 FLOORS = {
